@@ -126,8 +126,8 @@ theorem mapM_option_forall {α β : Type} (f : α → Option β) (P : β → Pro
         · exact mapM_option_forall f P hf l xs hl b hm
 
 theorem ntext_mkNode (S : Schema) (ty : TypeId) (a : Attrs) (m : Marks) (k : List Node)
-    (hk : ftext k = []) : ntext (S.mkNode ty a m k) = [] := by
-  unfold Schema.mkNode
+    (hk : ftext k = []) : ntext (S.mkNodeO ty a m k) = [] := by
+  unfold Schema.mkNodeO
   split
   · exact ntext_leaf _ _ _
   · rw [ntext_elem, hk]
@@ -379,7 +379,7 @@ theorem openFrontierNode_text (S : Schema) (fr : List FItem) (placed : List Node
   have := pure_ok h
   subst this
   have hn : ntext node = [] := by
-    unfold Schema.createNode at hnode
+    unfold Schema.createNodeO at hnode
     split at hnode
     · simp [throw, throwThe, MonadExceptOf.throw] at hnode
     · split at hnode
